@@ -506,6 +506,29 @@ func aoValue(ao, t int) interface{} {
 	return aoString(ao)
 }
 
+// the same signing key with the optional nonce member (16 bytes, the size the protocol asks for): another key as far as
+// commitments and reveal values go - the builders take it as it is
+func withNonce(sk *Key) *jws.JWK {
+	j := *sk.JWK
+	j.Nonce = b64(seedBytes(1, "life-nonce/"+sk.Name, 16))
+
+	return &j
+}
+
+// nonceProbe: a request built for a signing key that carries a nonce is a request like any other (its reveal value is the
+// hash of the key as it stands in the signed data)
+func (e *lifeEnv) nonceProbe(req []byte, berr error) error {
+	if berr != nil {
+		return fmt.Errorf("the same input with a signing key that carries a nonce: %w", berr)
+	}
+
+	if _, perr := e.parser.ParseOperation(lifeNS, req, true); perr != nil {
+		return fmt.Errorf("the same input with a signing key that carries a nonce: the parser refuses the request: %w", perr)
+	}
+
+	return nil
+}
+
 func aoString(ao int) string {
 	if ao == 0 {
 		return ""
@@ -621,6 +644,13 @@ func (e *lifeEnv) build(st *lStep, t int, did string, pre *lifeState, svcProps m
 			l1.req, l1.err = client.NewUpdateRequest(&client.UpdateRequestInfo{DidSuffix: suffix, Patches: patches, UpdateCommitment: nextCommit,
 				UpdateKey: sk.JWK, MultihashCode: alg, Signer: librarySigner(sk), RevealValue: refReveal(jwkMap(sk.JWK), pendingAlg),
 				AnchorFrom: from, AnchorUntil: until})
+
+			if l1.err == nil && st.Refused == "" {
+				nj := withNonce(sk)
+				req2, e2 := client.NewUpdateRequest(&client.UpdateRequestInfo{DidSuffix: suffix, Patches: patches, UpdateCommitment: nextCommit,
+					UpdateKey: nj, MultihashCode: alg, Signer: librarySigner(sk), RevealValue: refReveal(jwkMap(nj), pendingAlg), AnchorFrom: from, AnchorUntil: until})
+				l1.err = e.nonceProbe(req2, e2)
+			}
 		}
 
 		if st.Win != "none" {
@@ -682,6 +712,14 @@ func (e *lifeEnv) build(st *lStep, t int, did string, pre *lifeState, svcProps m
 
 		l1.req, l1.err = client.NewRecoverRequest(info)
 
+		if l1.err == nil && st.Refused == "" {
+			info2 := *info
+			info2.RecoveryKey = withNonce(sk)
+			info2.RevealValue = refReveal(jwkMap(info2.RecoveryKey), pendingAlg)
+			req2, e2 := client.NewRecoverRequest(&info2)
+			l1.err = e.nonceProbe(req2, e2)
+		}
+
 		if st.Win != "none" {
 			l2.skipped = true
 		} else {
@@ -715,6 +753,12 @@ func (e *lifeEnv) build(st *lStep, t int, did string, pre *lifeState, svcProps m
 		sk := signerKey("rec")
 		l1.req, l1.err = client.NewDeactivateRequest(&client.DeactivateRequestInfo{DidSuffix: suffix, RecoveryKey: sk.JWK,
 			Signer: librarySigner(sk), RevealValue: refReveal(jwkMap(sk.JWK), pendingAlg)})
+
+		if l1.err == nil && st.Refused == "" {
+			nj := withNonce(sk)
+			req2, e2 := client.NewDeactivateRequest(&client.DeactivateRequestInfo{DidSuffix: suffix, RecoveryKey: nj, Signer: librarySigner(sk), RevealValue: refReveal(jwkMap(nj), pendingAlg)})
+			l1.err = e.nonceProbe(req2, e2)
+		}
 
 		cerr := sc.DeactivateDID(did, deactivate.WithSigner(&apiSigner{librarySigner(sk), sk.JWK}),
 			deactivate.WithOperationCommitment(e.commitAlg(st.Signer, "rec", pendingAlgName)))
